@@ -898,7 +898,7 @@ def subgraph_centrality(CIJ):
     '''
     from scipy import linalg
 
-    vals, vecs = linalg.eig(CIJ)  # compute eigendecomposition
+    vals, vecs = linalg.eigh(CIJ)  # orthonormal eigendecomposition (symmetric CIJ)
     # lambdas=np.diag(vals)
     # compute eigenvector centr.
     Cs = np.real(np.dot(vecs * vecs, np.exp(vals)))
